@@ -192,7 +192,10 @@ class Clause:
 
 def debug_comment(message):
     '''formats a debug message as Python comment lines. The message can contain line
-    breaks (for example from a quoted atom), every line of it must become a comment.'''
+    breaks (for example from a quoted atom), every line of it must become a comment.
+    A NUL character is written as \\x00: Python refuses source text that contains one,
+    even inside a comment.'''
+    message = message.replace('\x00', '\\x00')
     return "".join('# ' + line + '\n' for line in (message.splitlines() or ['']))
 
 class YPPrologVisitor(prologVisitor):
